@@ -262,7 +262,8 @@ def odefun(ctx, F, x0, y0, tol=None, degree=None, method='taylor', verbose=False
     else:
         tol_prec = ctx.prec+10
     degree = degree or (3 + int(3*ctx.dps/2.))
-    workprec = ctx.prec + 40
+    # (a tolerance below the precision at creation needs its own bits)
+    workprec = max(ctx.prec, tol_prec) + 40
     try:
         len(y0)
         return_vector = True
